@@ -649,6 +649,30 @@ def b_max(ip, args, kw, ctx):
     return cur
 
 
+_NORM_MEMO = {}
+
+
+def b_normalize(ip, args, kw, ctx):
+    """unicodedata.normalize(form, s): concrete on concrete text; for symbolic text an opaque text that is a function of
+    (form, s) - normal forms may change the code points and the length of a text (over-approximation: nothing else is known)"""
+    import unicodedata
+    from .sym import array_gen, char_fact, fresh_name
+    form, s_ = args
+    if isinstance(form, str) and isinstance(s_, str):
+        return unicodedata.normalize(form, s_)
+    if not isinstance(form, str):
+        raise _uns("unicodedata.normalize with a symbolic form")
+    sq = Seq.of(s_)
+    key = (form, tuple((tuple(g.key), str(g.off), str(g.length)) if isinstance(g, Gen) else tuple(str(t) for t in g.terms) for g in sq.segs))
+    if key not in _NORM_MEMO:
+        L = z3.Int(fresh_name("normlen"))
+        _NORM_MEMO[key] = (L, array_gen(fresh_name("norm"), L, (), char_fact))
+    L, g = _NORM_MEMO[key]
+    ctx.fact(L >= 0)
+    ctx.used_models.add("unicodedata.normalize: the result is an (uninterpreted) function of form and text; its length is not known")
+    return Seq('str', [g])
+
+
 def b_range(ip, args, kw, ctx):
     if len(args) == 3 and not isz(args[0]) and not isz(args[2]) and isz(args[1]) and args[2] > 0:
         # range(a, symbolic stop, step): fork on the (small) number of iterations
@@ -1143,6 +1167,7 @@ def install(ip):
         b[name] = B(name, fn, pt)
     e = ip.ext_models
     e["binascii.hexlify"] = B("hexlify", b_hexlify)
+    e["unicodedata.normalize"] = B("unicodedata.normalize", b_normalize)
     e["binascii.unhexlify"] = B("unhexlify", b_unhexlify)
     e["binascii.crc_hqx"] = B("crc_hqx", crc_hqx)
     e["struct.pack"] = B("pack", struct_pack)
